@@ -133,6 +133,14 @@ class ModuleInfo:
         return f"<Module {self.name}>"
 
 
+def _tuple_item(value, i, n):
+    """Expression for the i-th component of a tuple assignment `a, b = value`."""
+    if isinstance(value, (ast.Tuple, ast.List)) and len(value.elts) == n and not any(isinstance(e, ast.Starred) for e in value.elts):
+        return value.elts[i]
+    node = ast.Subscript(value=value, slice=ast.Constant(value=i), ctx=ast.Load())
+    return ast.fix_missing_locations(ast.copy_location(node, value))
+
+
 class Model:
     """The whole package."""
 
@@ -202,6 +210,10 @@ class Model:
                     for t in st.targets:
                         if isinstance(t, ast.Name):
                             m.assigns[t.id] = st.value
+                        elif isinstance(t, (ast.Tuple, ast.List)):
+                            for i, e in enumerate(t.elts):      # a, b = x, y  /  a, b = f()
+                                if isinstance(e, ast.Name):
+                                    m.assigns[e.id] = _tuple_item(st.value, i, len(t.elts))
                 elif isinstance(st, ast.AnnAssign) and isinstance(st.target, ast.Name) and st.value is not None:
                     m.assigns[st.target.id] = st.value
         for m in self.modules.values():
@@ -221,6 +233,11 @@ class Model:
                     if isinstance(t, ast.Name):
                         ci.attrs[mangle(t.id, ci.name)] = st.value
                         ci.attr_nodes[mangle(t.id, ci.name)] = st
+                    elif isinstance(t, (ast.Tuple, ast.List)):
+                        for i, e in enumerate(t.elts):
+                            if isinstance(e, ast.Name):
+                                ci.attrs[mangle(e.id, ci.name)] = _tuple_item(st.value, i, len(t.elts))
+                                ci.attr_nodes[mangle(e.id, ci.name)] = st
             elif isinstance(st, ast.AnnAssign) and isinstance(st.target, ast.Name) and st.value is not None:
                 ci.attrs[mangle(st.target.id, ci.name)] = st.value
                 ci.attr_nodes[mangle(st.target.id, ci.name)] = st
@@ -259,8 +276,65 @@ class Model:
         ci = self.cls(modname, clsname)
         f = ci.methods.get(mangle(meth, clsname))
         if f is None:
+            f = self._by_role(ci, meth)      # a private helper may have been renamed: find it by what it is used for
+        if f is None:
             raise AnalysisError(f"anchor vanished: method {clsname}.{meth} not found in {modname}")
         return f
+
+    # -- private anchors located by role (tolerates renaming of name-mangled helpers) -----------------
+    def _private_callees(self, f: FuncInfo, within=None):
+        """Methods of f's class that f calls as self.X(...) / __class__.X(...) / ClassName.X(...), in source order."""
+        out = []
+        ci = f.cls
+        for node in ast.walk(within if within is not None else f.node):
+            if isinstance(node, ast.Call) and isinstance(node.func, ast.Attribute) and isinstance(node.func.value, ast.Name) \
+                    and node.func.value.id in ("self", "__class__", ci.name, "cls"):
+                g = ci.find_method(mangle(node.func.attr, ci.name))
+                if g is not None and g not in out and not (node.func.attr.startswith("__") and node.func.attr.endswith("__")):
+                    out.append(g)
+        return out
+
+    def _by_role(self, ci: ClassInfo, meth: str):
+        get = lambda n: ci.methods.get(mangle(n, ci.name))
+        try:
+            if ci.name == "Pregex" and meth == "__escape":
+                init = get("__init__")
+                for node in ast.walk(init.node):
+                    if isinstance(node, ast.If) and any(isinstance(n, ast.Name) and n.id == "escape" for n in ast.walk(node.test)):
+                        for st in node.body:
+                            c = self._private_callees(init, st)
+                            if c:
+                                return c[0]
+            if ci.name == "Pregex" and meth == "__infer_type":
+                init = get("__init__")
+                for node in ast.walk(init.node):
+                    if isinstance(node, ast.Assign) and isinstance(node.targets[0], ast.Tuple) and len(node.targets[0].elts) == 2:
+                        c = self._private_callees(init, node.value)
+                        if c:
+                            return c[0]
+            if ci.name == "Pregex" and meth in ("__extract_text", "__iterate_match_objects"):
+                want = "open" if meth == "__extract_text" else "finditer"
+                cands = []
+                for g in ci.methods.values():
+                    if not g.node.name.startswith("_") or g.node.name.endswith("__"):
+                        continue
+                    for node in ast.walk(g.node):
+                        if isinstance(node, ast.Call) and ((isinstance(node.func, ast.Name) and node.func.id == want) or
+                                                           (isinstance(node.func, ast.Attribute) and node.func.attr == want)):
+                            cands.append(g)
+                            break
+                if len(cands) == 1:
+                    return cands[0]
+            if ci.name == "__Class" and meth in ("__or", "__sub"):
+                a, b = get("__or__"), get("__sub__")
+                ca, cb = self._private_callees(a), self._private_callees(b)
+                mine, other = (ca, cb) if meth == "__or" else (cb, ca)
+                only = [g for g in mine if g not in other]
+                if len(only) == 1:
+                    return only[0]
+        except (AttributeError, IndexError):
+            return None
+        return None
 
     @property
     def pregex(self) -> ClassInfo:
